@@ -84,12 +84,88 @@ fn nonce(rng: &mut Rng) -> Vec<u8> {
     rng.bytes(len)
 }
 
+/// Deterministic enumeration: every signing policy × every pool key, then every way ONE input of the
+/// verification can differ from what was signed; null inputs; non-signing policies; the x509 token
+/// wrapper; `asymmetric_sign` with a buffer that is not exactly one key size.
+fn systematic(out: &mut Vec<String>) {
+    let n0: Vec<u8> = (0..32u8).collect();
+    let nx = hex(&n0);
+    for pol in SIGNING {
+        for signer in 0..4usize {
+            let c0 = (signer + 1) % 4;
+            let ks = (POOL_BITS[signer] / 8) as usize;
+            out.push(format!("reset {} {}", pol, signer));
+            out.push(format!("create {} x{}", c0, nx));
+            let v = |p: &str, k: usize, c: usize, m: usize, n: &[u8], kind: &str, prm: usize| {
+                format!("verify {} {} {} {} x{} {} {}", p, k, c, m, hex(n), kind, prm)
+            };
+            out.push(v(pol, signer, c0, 0, &n0, "none", 0));
+            for k in 0..4 {
+                if k != signer {
+                    out.push(v(pol, k, c0, 0, &n0, "none", 0));
+                }
+            }
+            out.push(v(pol, signer, (c0 + 1) % 4, 0, &n0, "none", 0));
+            for m in [1usize, 64, 65, 64 * 255] {
+                out.push(v(pol, signer, c0, m, &n0, "none", 0));
+            }
+            let mut n1 = n0.clone();
+            n1[0] ^= 1;
+            out.push(v(pol, signer, c0, 0, &n1, "none", 0));
+            let mut n2 = n0.clone();
+            n2[31] ^= 0x80;
+            out.push(v(pol, signer, c0, 0, &n2, "none", 0));
+            out.push(v(pol, signer, c0, 0, &n0[..31], "none", 0));
+            out.push(v(pol, signer, c0, 0, &[&n0[..], &[0u8][..]].concat(), "none", 0));
+            out.push(v(pol, signer, c0, 0, &[], "none", 0));
+            for bit in [0usize, 7, 8 * ks - 1, 4 * ks + 3] {
+                out.push(v(pol, signer, c0, 0, &n0, "flip", bit));
+            }
+            out.push(v(pol, signer, c0, 0, &n0, "trunc", 1));
+            out.push(v(pol, signer, c0, 0, &n0, "extend", 1));
+            out.push(v(pol, signer, c0, 0, &n0, "null", 0));
+            out.push(v(pol, signer, c0, 0, &n0, "zero", 0));
+            for p2 in SIGNING {
+                if p2 != pol {
+                    out.push(v(p2, signer, c0, 0, &n0, "none", 0));
+                }
+            }
+            // the x509 identity token wrapper
+            out.push(format!("vx509 {} {} {} x{}", pol, signer, c0, nx));
+            out.push(format!("vx509 {} {} {} x{}", pol, (signer + 1) % 4, c0, nx));
+            out.push(format!("vx509 {} g {} x{}", pol, c0, nx));
+            out.push(format!("vx509 {} - {} x{}", pol, c0, nx));
+            // asymmetric_sign into a buffer of the wrong size
+            out.push(format!("signbuf {} {} {}", pol, signer, ks));
+            out.push(format!("reset {} {}", pol, signer));
+            out.push(format!("signbuf {} {} {}", pol, signer, ks - 1));
+            out.push(format!("reset {} {}", pol, signer));
+            out.push(format!("signbuf {} {} {}", pol, signer, ks + 1));
+            // by-design panic last
+            out.push(format!("reset {} {}", pol, signer));
+            out.push(format!("create {} x{}", c0, nx));
+            out.push(v(if signer % 2 == 0 { "none" } else { "unknown" }, signer, c0, 0, &n0, "none", 0));
+        }
+    }
+    for pol in ["none", "unknown", "basic256"] {
+        for (c, n) in [("1", format!("x{}", nx)), ("-", format!("x{}", nx)), ("1", "-".to_string()), ("1", "x".to_string())] {
+            out.push(format!("reset {} 1", pol));
+            out.push(format!("create {} {}", c, n));
+            out.push(format!("verify basic256 1 1 0 x{} none 0", if n == "x" { "".to_string() } else { nx.clone() }));
+            out.push(format!("verify basic256 1 1 0 x{} zero 0", nx));
+        }
+    }
+    out.push("reset none 0".to_string());
+    out.push("signbuf none 0 128".to_string());
+}
+
 impl Prop for C17 {
     fn id(&self) -> &'static str {
         "C17"
     }
 
     fn gen(&self, rng: &mut Rng, n: usize, tier: Tier, out: &mut Vec<String>) {
+        systematic(out);
         for _ in 0..n {
             let pol = if rng.chance(1, 25) { *rng.pick(&["none", "unknown"]) } else { *rng.pick(&SIGNING) };
             // the 4096-bit key is slow: rarer in the quick tier
@@ -321,6 +397,48 @@ impl Runner for R {
                 };
                 (res, v)
             }
+            ["vx509", p, tk, c, n] => {
+                let (Some(pol), Ok(c), Some(n)) = (policy(p), c.parse::<usize>(), unhex(n)) else { return bad() };
+                if c >= 4 {
+                    return bad();
+                }
+                let certificate_data = match *tk {
+                    "g" => ByteString::from(vec![0x30u8, 0x03, 0x01, 0x02, 0x03]),
+                    "-" => ByteString::null(),
+                    k => match k.parse::<usize>() {
+                        Ok(k) if k < 4 => pool()[k].cert.as_byte_string(),
+                        _ => return bad(),
+                    },
+                };
+                let token = opcua::types::service_types::X509IdentityToken { policy_id: UAString::from("x509"), certificate_data };
+                let sd = self.sd.clone().unwrap_or(SignatureData { algorithm: UAString::null(), signature: ByteString::null() });
+                let r = opcua::crypto::user_identity::verify_x509_identity_token(&token, &sd, pol, &pool()[c].cert, &n);
+                let st = match r {
+                    Ok(()) => opcua::types::StatusCode::Good,
+                    Err(e) => e,
+                };
+                let expect_good = match (&self.made, tk.parse::<usize>()) {
+                    (Some((c0, n0)), Ok(k)) => k == self.signer && c == *c0 && n == *n0 && *p == self.pol,
+                    _ => false,
+                };
+                let v = if st.is_good() != expect_good && (expect_good || *p == self.pol) {
+                    Verdict::fail(if expect_good { "completeness" } else { "soundness" }, "x509-token", format!("{}", st.name()))
+                } else {
+                    Verdict::Ok
+                };
+                (format!("ok {}", st.name()), v)
+            }
+            ["signbuf", p, k, len] => {
+                let (Some(pol), Ok(k), Ok(len)) = (policy(p), k.parse::<usize>(), len.parse::<usize>()) else { return bad() };
+                if k >= 4 {
+                    return bad();
+                }
+                let mut buf = vec![0u8; len];
+                match pol.asymmetric_sign(&pool()[k].pkey, b"", &mut buf) {
+                    Ok(l) => (format!("ok {}", l), Verdict::Ok),
+                    Err(e) => (format!("err {}", e.name()), Verdict::Ok),
+                }
+            }
             _ => bad(),
         }
     }
@@ -329,7 +447,9 @@ impl Runner for R {
     /// `panic!("Invalid policy")` for them (its callers exclude them); outside the property.
     fn on_panic(&self, toks: &[&str]) -> Verdict {
         match toks {
-            ["verify", "none" | "unknown", ..] => Verdict::Ok,
+            ["verify" | "vx509" | "signbuf", "none" | "unknown", ..] => Verdict::Ok,
+            // the caller of `asymmetric_sign` must supply exactly one key size (`copy_from_slice`)
+            ["signbuf", ..] => Verdict::Ok,
             _ => Verdict::fail("no_panic", "-", "implementation panicked"),
         }
     }
